@@ -100,6 +100,41 @@ pub fn exercise(text: &str, paths: &[String]) -> Outcome {
                 // walk construction compiles the component programs (no iteration, no I/O)
                 let _ = g.walk(".");
                 let _ = g.walk_with_behavior("/nonexistent", wax::walk::LinkBehavior::ReadTarget);
+                // every depth behaviour against the length of the glob's invariant prefix (a
+                // maximum below it, a minimum above it, the extremes); the first item is pulled:
+                // the start directory does not exist, so this is one failed `stat`, no traversal
+                {
+                    use wax::walk::{DepthBehavior, DepthMax, DepthMin, DepthMinMax, FileIterator};
+                    let mut hs: Vec<DepthBehavior> = vec![
+                        DepthMax(0).into(),
+                        DepthMax(1).into(),
+                        DepthMax(usize::MAX).into(),
+                        DepthMin::from_min_or_unbounded(0),
+                        DepthMin::from_min_or_unbounded(3),
+                        DepthMin::from_min_or_unbounded(usize::MAX),
+                        DepthMinMax::from_depths_or_max(0, 0),
+                        DepthMinMax::from_depths_or_max(2, 1),
+                        DepthMinMax::from_depths_or_max(1, usize::MAX),
+                        DepthMinMax::from_depths_or_max(usize::MAX, usize::MAX),
+                    ];
+                    hs.extend(DepthBehavior::bounded(None, Some(0)));
+                    hs.extend(DepthBehavior::bounded(Some(5), Some(2)));
+                    hs.extend(DepthBehavior::bounded(Some(usize::MAX), None));
+                    // never let a walk touch a real directory: only globs that are relative by
+                    // every account (query, partition prefix, text) are iterated
+                    let relative = g.has_root().is_never()
+                        && !g.clone().partition().0.has_root()
+                        && !text.starts_with('/')
+                        && !text.contains('[');
+                    for h in hs {
+                        let w = g.walk_with_behavior("/nonexistent/waxverif", h);
+                        if relative {
+                            let mut w = w.not("**/x/**").expect("a literal negation builds");
+                            let _ = w.next();
+                        }
+                        ops += 1;
+                    }
+                }
                 ops += 6;
             },
         }
